@@ -429,8 +429,32 @@ Fixpoint map_res (f : str -> rres) (l : list str) : option (list str) :=
               end
   end.
 
-(* the loop of resolve_references / adapt_references over a parsed attribute *)
-Fixpoint map_attr (rl : rules) (f : str -> rres) (a : pattr) (acc : pattr) : option pattr :=
+(* the loop of resolve_references / adapt_references over a parsed attribute (since 8d03027):
+   the parsed attribute is an ordered LIST of (name, values) pairs and the result is built with
+   .append((k, v)): order and multiplicity are kept, nothing is merged *)
+Fixpoint map_attr (rl : rules) (f : str -> rres) (a : pattr) : option pattr :=
+  match a with
+  | [] => Some []
+  | (k, v) :: r =>
+      match (if r_key rl then f k else RStr k) with
+      | RExc => None
+      | RStr k' =>
+          let v' : option (option (list str)) :=
+            match v with
+            | Some vs => if r_val rl then match map_res f vs with None => None | Some vs' => Some (Some vs') end
+                         else Some v
+            | None => Some None
+            end in
+          match v' with
+          | None => None
+          | Some w => match map_attr rl f r with None => None | Some t => Some ((k', w) :: t) end
+          end
+      end
+  end.
+
+(* before 8d03027: parse_attribute returned a dict and the loop stored d[k] = v, so a name
+   occurring twice, or two references resolving to one name, were merged into one entry *)
+Fixpoint map_attr_dict (rl : rules) (f : str -> rres) (a : pattr) (acc : pattr) : option pattr :=
   match a with
   | [] => Some acc
   | (k, v) :: r =>
@@ -442,10 +466,10 @@ Fixpoint map_attr (rl : rules) (f : str -> rres) (a : pattr) (acc : pattr) : opt
               if r_val rl then
                 match map_res f vs with
                 | None => None
-                | Some vs' => map_attr rl f r (dict_set k' (Some vs') acc)
+                | Some vs' => map_attr_dict rl f r (dict_set k' (Some vs') acc)
                 end
-              else map_attr rl f r (dict_set k' v acc)
-          | None => map_attr rl f r (dict_set k' None acc)
+              else map_attr_dict rl f r (dict_set k' v acc)
+          | None => map_attr_dict rl f r (dict_set k' None acc)
           end
       end
   end.
@@ -460,21 +484,38 @@ Definition attr_str (a : pattr) : str :=
                        end) a).
 
 (* resolve_references followed (after the whole file is processed) by adapt_references.
-   The second pass works on the re-generated string, which the harness parses again with
-   the same word syntax; here the parsed form is passed through (see Lemmas: the
-   generated string of a parsed attribute parses back to it when no word is empty). *)
+   The second pass works on the re-generated string, which parse_attribute splits again into the
+   same list of pairs (checked on the implementation for every generated attribute: the harness
+   hands over the parsed form of the string it wrote); here the parsed form is passed through. *)
 Definition flatten_attr_gen (fixed : bool) (hash : str -> str) (root : group) (rl : rules) (strict : bool)
            (rp : list str) (coords : option str) (a : pattr) : option str :=
-  match map_attr rl (resolve_gen fixed root rl strict rp coords) a [] with
+  match map_attr rl (resolve_gen fixed root rl strict rp coords) a with
   | None => None
   | Some a1 =>
-      match map_attr rl (adapt hash root rl strict) a1 [] with
+      match map_attr rl (adapt hash root rl strict) a1 with
       | None => None
       | Some a2 => Some (attr_str a2)
       end
   end.
 Definition flatten_attr := flatten_attr_gen true.
 Definition flatten_attr_old := flatten_attr_gen false.
+
+(* the dict version of both passes (the parse itself already merged equal names: fold the
+   parsed list into a dict first) *)
+Definition flatten_attr_dict (hash : str -> str) (root : group) (rl : rules) (strict : bool)
+           (rp : list str) (coords : option str) (a : pattr) : option str :=
+  match map_attr_dict rl RStr a [] with
+  | None => None
+  | Some a0 =>
+      match map_attr_dict rl (resolve_gen true root rl strict rp coords) a0 [] with
+      | None => None
+      | Some a1 =>
+          match map_attr_dict rl (adapt hash root rl strict) a1 [] with
+          | None => None
+          | Some a2 => Some (attr_str a2)
+          end
+      end
+  end.
 
 (* ------------------------------------------------------------------ reader: un-flattening *)
 (* netcdfread.py, for one entry "flat: /a/b/name" of _flattener_variable_map:
